@@ -129,7 +129,8 @@ def bases_to_span(bases: Iterable[int], length: int) -> Optional[Tuple[int, int]
 #                 "cds(a and b)" both in the gene itself
 #                 "a and not c"  a in the gene, c neither in the gene nor within reach
 #                 "minimum(2,[a,b])"
-CONDITIONS = ("a", "a and b", "a or b", "cds(a and b)", "a and not c", "minimum(2,[a,b])")
+#                 "c and not cds(a and b)"  c in the gene, no gene within reach (nor the gene itself) carrying both a and b
+CONDITIONS = ("a", "a and b", "a or b", "cds(a and b)", "a and not c", "minimum(2,[a,b])", "c and not cds(a and b)")
 
 
 def anchors_of(cond: str, hits: Sequence[str], near) -> Set[int]:
@@ -158,6 +159,9 @@ def anchors_of(cond: str, hits: Sequence[str], near) -> Set[int]:
             holds = "a" in own and "b" in own
         elif cond == "a and not c":
             holds = "a" in own and "c" not in own and not reach(i, "c")
+        elif cond == "c and not cds(a and b)":
+            holds = ("c" in own and not ("a" in own and "b" in own)
+                     and not any("a" in hits[j] and "b" in hits[j] for j in genes if j != i and near(i, j)))
         elif cond == "minimum(2,[a,b])":
             mine = sum(1 for p in "ab" if p in own)
             others = sum(1 for j in genes if j != i and near(i, j) for p in "ab" if p in hits[j])
